@@ -59,4 +59,16 @@ StartG2 == {DocG2}
 \* negative control (MC_ReproDoc_neg_nl.cfg, REnsureNl <- NegNoEnsure): an add that does not supply
 \* the missing newline glues two fields; TLC must report DocWellFormed violated
 NegNoEnsure(fs) == fs
+\* negative control for refused document-level calls (MC_ReproDoc_neg_owned.cfg, RefusedLeaves <-
+\* NegRefusedPreparesTail): an append / insert of an already owned paragraph that raises only AFTER
+\* the separating newline was put behind the last paragraph; TLC must report ErrAtomic violated
+NegRefusedPreparesTail(d) == IF d # <<>> /\ d[Len(d)].t = "p" THEN d \o <<MkSep(NewSep)>> ELSE d
+\* negative control for ReplaceLaws (MC_ReproDoc_neg_cmt.cfg, NegReplaceLaws): an assignment that
+\* rebuilds the replaced field without re-attaching its comment block is not a local edit; TLC must
+\* report NegReplaceLaws violated
+NegAssignDropsComment(fs, key, s, v) ==
+   LET out == RAssign(fs, key, s, v)
+       tgt == IF key.i = NoIdx THEN ROcc(fs, key.n)[1] ELSE ROcc(fs, key.n)[key.i + 1]
+   IN IF RHas(fs, key.n) THEN [out EXCEPT ![tgt].c = 0] ELSE out
+NegReplaceLaws == \A p \in 1..NParas : ReplaceLawsOf(NegAssignDropsComment, Para(p).fs)
 =============================================================================
